@@ -226,7 +226,7 @@ std::vector<Sub> vh_subs() {
   {
     Sub s;
     s.name = "tables";  // precomputed tables of the reim / cplx / q120 layers are read-only
-    s.fields = {{"logm", 0, 12}, {"fn", 0, 9}, {"cfg", 0, 1}, {"ell", 0, 64}, {"seed", 0, INT64_MAX - 1}};
+    s.fields = {{"logm", 0, 16}, {"fn", 0, 9}, {"cfg", 0, 1}, {"ell", 0, 64}, {"seed", 0, INT64_MAX - 1}, {"nbuf", 0, 2}};
     s.run = [](const Vals& v, Ctx& ctx) {
       const uint64_t m = 1ull << v[0];
       const int fn = (int)v[1];
@@ -243,12 +243,13 @@ std::vector<Sub> vh_subs() {
       std::function<void()> del = [&]() { free(obj); };
       Buf D = ar.alloc(2 * m * 8, OVER);
       for (uint64_t i = 0; i < 2 * m; ++i) D.as<double>()[i] = std::ldexp(r.sunit(), (int)r.below(40) - 20);
+      const uint32_t nbuf = fn <= 3 ? (uint32_t)v[5] : 0;  // fft tables can carry built-in data buffers (documented: *_precomp_get_buffer)
       at::begin();
       switch (fn) {
-        case 0: obj = new_reim_fft_precomp(m, 0); break;
-        case 1: obj = new_reim_ifft_precomp(m, 0); break;
-        case 2: obj = new_cplx_fft_precomp(m, 0); break;
-        case 3: obj = new_cplx_ifft_precomp(m, 0); break;
+        case 0: obj = new_reim_fft_precomp(m, nbuf); break;
+        case 1: obj = new_reim_ifft_precomp(m, nbuf); break;
+        case 2: obj = new_cplx_fft_precomp(m, nbuf); break;
+        case 3: obj = new_cplx_ifft_precomp(m, nbuf); break;
         case 4: obj = new_reim_to_znx64_precomp(m, (double)m, 63); break;
         case 5: obj = new_reim_from_znx64_precomp(m, 50); break;
         case 6: obj = q120_new_ntt_bb_precomp(m); del = [&]() { q120_del_ntt_bb_precomp((q120_ntt_precomp*)obj); }; break;
@@ -257,6 +258,49 @@ std::vector<Sub> vh_subs() {
         default: obj = q120_new_vec_mat1col_product_bbc_precomp(); del = [&]() { q120_delete_vec_mat1col_product_bbc_precomp((q120_mat1col_product_bbc_precomp*)obj); };
       }
       blocks = at::end();
+      if (nbuf) {
+        // The built-in buffers are data, the rest of the object is the read-only table: a transform executed IN a built-in buffer must
+        // leave the table as it was.  The buffers live inside the object's heap block, so the table is watched through its observable
+        // behaviour: the transform of one fixed user vector before and after must be bit-identical.
+        auto tr = [&](double* x) {
+          switch (fn) {
+            case 0: reim_fft((REIM_FFT_PRECOMP*)obj, x); break;
+            case 1: reim_ifft((REIM_IFFT_PRECOMP*)obj, x); break;
+            case 2: cplx_fft((CPLX_FFT_PRECOMP*)obj, x); break;
+            default: cplx_ifft((CPLX_IFFT_PRECOMP*)obj, x);
+          }
+        };
+        auto getbuf = [&](uint32_t i) -> double* {
+          switch (fn) {
+            case 0: return reim_fft_precomp_get_buffer((REIM_FFT_PRECOMP*)obj, i);
+            case 1: return reim_ifft_precomp_get_buffer((REIM_IFFT_PRECOMP*)obj, i);
+            case 2: return (double*)cplx_fft_precomp_get_buffer((CPLX_FFT_PRECOMP*)obj, i);
+            default: return (double*)cplx_ifft_precomp_get_buffer((CPLX_IFFT_PRECOMP*)obj, i);
+          }
+        };
+        std::vector<double> probe(D.as<double>(), D.as<double>() + 2 * m);
+        Buf U = ar.alloc(2 * m * 8, OVER);
+        memcpy(U.p, probe.data(), 2 * m * 8);
+        tr(U.as<double>());
+        std::vector<double> before(U.as<double>(), U.as<double>() + 2 * m);
+        for (uint32_t b = 0; b < nbuf; ++b) {
+          double* x = getbuf(b);
+          for (uint64_t i = 0; i < 2 * m; ++i) x[i] = std::ldexp(r.sunit(), (int)r.below(30));
+          tr(x);
+        }
+        memcpy(U.p, probe.data(), 2 * m * 8);
+        tr(U.as<double>());
+        const bool same = memcmp(before.data(), U.p, 2 * m * 8) == 0;
+        del();
+        ctx.notef("%s m=%llu cfg=%s built-in buffers=%u", names[fn], (unsigned long long)m, mask ? "generic" : "full", nbuf);
+        if (!same) return ctx.failf("%s m=%llu: after a transform executed in a built-in buffer of the table (num_buffers=%u) the same table transforms the same vector differently: the table was modified", names[fn], (unsigned long long)m, nbuf);
+        if (ar.check_canaries() >= 0) return ctx.failf("%s wrote outside its buffers", names[fn]);
+        ctx.nontrivial = true;
+        ctx.cls(std::string("table:") + names[fn]);
+        ctx.cls("table:built-in-buffers");
+        if (v[0] >= 14) ctx.cls("table:built-in-buffers,m>=16384");
+        return;
+      }
       const uint64_t h0 = at::hash_blocks(blocks);
       int sources = 0;
       switch (fn) {
